@@ -2,6 +2,7 @@
 mod dump;
 mod gen_c06;
 mod gen_c07;
+mod gen_c08;
 mod gen_c12;
 mod util;
 
@@ -22,6 +23,7 @@ fn main() {
         }
         Some("gen") => match args.get(2).map(|s| s.as_str()) {
             Some("c12") => gen_c12::gen(&mut out, seed, thorough),
+            Some("c08") => gen_c08::gen(&mut out, seed, thorough),
             Some("c07") => gen_c07::gen(&mut out, seed, thorough),
             Some("c06") => gen_c06::gen(&mut out, seed, thorough),
             _ => {
